@@ -39,7 +39,27 @@ let iswap p =
 let iconst (n:int) y =
   n
 
+let iunbox (b:IBox<int>) =
+  b.Val
+
+let ioptlen (o:IOpt<string>) =
+  1
+
+let iwrap x =
+  {Val=x; Tag="w"}
+
 """
+
+LIT = {"int": ["lit", "int"], "str": ["lit", "string"], "bool": ["lit", "bool"]}
+
+
+def V(x):
+    return ["var", x]
+
+
+def call(f, *args):
+    return ["call", f, list(args)]
+
 
 
 def sl(t):
@@ -65,6 +85,7 @@ class Fn:
         self.funparams = set()
         self.applied = set()
         self.funlocals = []
+        self.stmts = []
 
     def fresh(self, base="t"):
         self.n += 1
@@ -103,10 +124,23 @@ class Fn:
     # what each construct yields: "int" / "str" / "bool" / "tup" / "sl" / "named" / "any" (a fresh or propagated type)
     YIELD = {"arith": "intstr", "cmp": "bool", "eq": "bool", "tuple": "tup", "slice": "sl", "strlen": "int", "length": "int", "head": "any",
              "fst": "any", "snd": "any", "map": "sl", "append": "sl", "push": "sl", "applyf": "any", "rec": "named", "ctor": "named",
-             "ipair": "tup", "iid": "any", "iswap": "tup", "iconst": "int", "concat": "str", "sprintf": "str"}
+             "ipair": "tup", "iid": "any", "iswap": "tup", "iconst": "int", "concat": "str", "sprintf": "str",
+             "gbox": "named", "gsome": "named", "iwrap": "named", "iunbox": "int", "ioptlen": "int"}
+
+    def generic_value(self, d, arg_want):
+        """an expression of type IBox<t> / IOpt<t> (kind chosen by the caller through arg_want = ("IBox"|"IOpt", base or None))"""
+        rng = self.rng
+        kind, want = arg_want
+        a, ta, xa = self.expr(d, want)
+        if kind == "IBox":
+            if rng.random() < 0.5:
+                return '{Val=%s; Tag="t"}' % a, ["named", "IBox", [ta]], call("{IBox}", xa, LIT["str"])
+            return "iwrap %s" % self.atom(a), ["named", "IBox", [ta]], call("iwrap", xa)
+        return "ISome %s" % self.atom(a), ["named", "IOpt", [ta]], call("ISome", xa)
 
     def expr(self, d, want=None):
-        """an expression; want: None or a ground base type the context requires (the caller still adds the equation)"""
+        """an expression: (text, type term, abstract syntax); want: None or a ground base type the context requires (the caller still adds
+        the equation)"""
         rng = self.rng
         opts = ["var", "var", "lit"]
         if d > 0:
@@ -119,78 +153,85 @@ class Fn:
         if o == "var":
             x = self.var()
             if x is not None:
-                return x, self.env[x]
+                return x, self.env[x], V(x)
             o = "lit"
         if o == "lit":
             k = rng.choice(["int", "str", "bool"]) if want is None else {"int": "int", "string": "str", "bool": "bool"}[want[1]]
-            return {"int": (str(rng.randint(0, 9)), INT), "str": ('"s%d"' % rng.randint(0, 3), STR), "bool": (rng.choice(["true", "false"]), BOOL)}[k]
+            return {"int": (str(rng.randint(0, 9)), INT, LIT["int"]), "str": ('"s%d"' % rng.randint(0, 3), STR, LIT["str"]),
+                    "bool": (rng.choice(["true", "false"]), BOOL, LIT["bool"])}[k]
         if o == "arith":
             isint = rng.random() < 0.7 if want is None else want == INT
-            a, ta = E(INT if isint else STR)
+            a, ta, xa = E(INT if isint else STR)
             if isint:
                 self.eq(ta, INT)                          # a typed operand: an int literal
-                return "%s %s %d" % (self.atom(a), rng.choice(["+", "-", "*"]), rng.randint(1, 5)), ta
+                return "%s %s %d" % (self.atom(a), rng.choice(["+", "-", "*"]), rng.randint(1, 5)), ta, call("int+", xa, LIT["int"])
             self.eq(ta, STR)
-            return '%s + "x"' % self.atom(a), ta
+            return '%s + "x"' % self.atom(a), ta, call("str+", xa, LIT["str"])
         if o == "cmp":
-            a, ta = E(INT)
+            a, ta, xa = E(INT)
             self.eq(ta, INT)
-            return "%s %s %d" % (self.atom(a), rng.choice(["<", ">", "<=", ">="]), rng.randint(0, 9)), BOOL
+            return "%s %s %d" % (self.atom(a), rng.choice(["<", ">", "<=", ">="]), rng.randint(0, 9)), BOOL, call("cmp", xa, LIT["int"])
         if o == "eq":
-            a, ta = E()
-            b, tb = E(ta if ta in (INT, STR, BOOL) else None)
+            a, ta, xa = E()
+            b, tb, xb = E(ta if ta in (INT, STR, BOOL) else None)
             self.eq(ta, tb)
-            return "%s %s %s" % (self.atom(a), rng.choice(["=", "<>"]), self.atom(b)), BOOL
+            return "%s %s %s" % (self.atom(a), rng.choice(["=", "<>"]), self.atom(b)), BOOL, call("eq", xa, xb)
         if o == "tuple":
-            a, ta = E()
-            b, tb = E()
+            a, ta, xa = E()
+            b, tb, xb = E()
             if rng.random() < 0.25:
-                c, tc = E()
-                return "(%s, %s, %s)" % (a, b, c), tup(ta, tb, tc)
-            return "(%s, %s)" % (a, b), tup(ta, tb)
+                c, tc, xc = E()
+                return "(%s, %s, %s)" % (a, b, c), tup(ta, tb, tc), ["tuple", [xa, xb, xc]]
+            return "(%s, %s)" % (a, b), tup(ta, tb), ["tuple", [xa, xb]]
         if o == "slice":
-            a, ta = E()
-            b, tb = E(ta if ta in (INT, STR, BOOL) else None)
+            if d > 1 and rng.random() < 0.2:
+                # two values of a generic user type in one slice literal: their type arguments are unified
+                kind = rng.choice(["IBox", "IOpt"])
+                a, ta, xa = self.generic_value(d - 2, (kind, None))
+                b, tb, xb = self.generic_value(d - 2, (kind, ta[2][0] if ta[2][0] in (INT, STR, BOOL) else None))
+            else:
+                a, ta, xa = E()
+                b, tb, xb = E(ta if ta in (INT, STR, BOOL) else None)
             self.eq(ta, tb)
-            return "[%s; %s]" % (a, b), sl(ta)
+            return "[%s; %s]" % (a, b), sl(ta), ["slice", [xa, xb]]
         if o == "strlen":
-            a, ta = E(STR)
+            a, ta, xa = E(STR)
             self.eq(ta, STR)
-            return "strings.Length %s" % self.atom(a), INT
+            return "strings.Length %s" % self.atom(a), INT, call("strings.Length", xa)
         if o == "concat":
-            a, ta = self.expr(0)
+            a, ta, xa = self.expr(0)
             self.eq(ta, sl(STR))
-            return 'strings.Concat "," %s' % self.atom(a), STR
+            return 'strings.Concat "," %s' % self.atom(a), STR, call("strings.Concat", LIT["str"], xa)
         if o == "sprintf":
-            a, ta = E()
-            return 'frt.Sprintf1 "%%v" %s' % self.atom(a), STR
+            a, ta, xa = E()
+            return 'frt.Sprintf1 "%%v" %s' % self.atom(a), STR, call("frt.Sprintf1", LIT["str"], xa)
         if o == "length":
-            a, ta = E()
+            a, ta, xa = E()
             e = self.fresh()
             self.eq(ta, sl(e))
-            return "slice.Length %s" % self.atom(a), INT
+            return "slice.Length %s" % self.atom(a), INT, call("slice.Length", xa)
         if o == "head":
-            a, ta = E()
+            a, ta, xa = E()
             e = self.fresh()
             self.eq(ta, sl(e))
-            return "slice.Head %s" % self.atom(a), e
+            return "slice.Head %s" % self.atom(a), e, call("slice.Head", xa)
         if o in ("fst", "snd"):
-            a, ta = E()
+            a, ta, xa = E()
             f1, f2 = self.fresh(), self.fresh()
             self.eq(ta, tup(f1, f2))
-            return ("frt.Fst %s" if o == "fst" else "frt.Snd %s") % self.atom(a), (f1 if o == "fst" else f2)
+            return ("frt.Fst %s" if o == "fst" else "frt.Snd %s") % self.atom(a), (f1 if o == "fst" else f2), call("frt.Fst" if o == "fst" else "frt.Snd", xa)
         if o == "append":
-            a, ta = E()
-            b, tb = E()
+            a, ta, xa = E()
+            b, tb, xb = E()
             e = self.fresh()
             self.eq(ta, sl(e))
             self.eq(tb, sl(e))
-            return "slice.Append %s %s" % (self.atom(a), self.atom(b)), sl(e)
+            return "slice.Append %s %s" % (self.atom(a), self.atom(b)), sl(e), call("slice.Append", xa, xb)
         if o == "push":
-            a, ta = E()
-            b, tb = E()
+            a, ta, xa = E()
+            b, tb, xb = E()
             self.eq(tb, sl(ta))
-            return "slice.PushLast %s %s" % (self.atom(a), self.atom(b)), sl(ta)
+            return "slice.PushLast %s %s" % (self.atom(a), self.atom(b)), sl(ta), call("slice.PushLast", xa, xb)
         if o in ("map", "applyf"):
             fs = [x for x in self.funparams if x not in self.applied]
             if not fs:
@@ -199,55 +240,69 @@ class Fn:
             self.applied.add(f)                      # a function-typed parameter is applied (or passed) once
             if f in self.unused:
                 self.unused.remove(f)
-            a, ta = E()
+            a, ta, xa = E()
             r = self.fresh()
             if o == "applyf":
                 self.eq(self.env[f], fn([ta], r))
-                return "%s %s" % (f, self.atom(a)), r
+                return "%s %s" % (f, self.atom(a)), r, ["app", f, [xa]]
             e = self.fresh()
             self.eq(self.env[f], fn([e], r))
             self.eq(ta, sl(e))
-            return "slice.Map %s %s" % (f, self.atom(a)), sl(r)
+            return "slice.Map %s %s" % (f, self.atom(a)), sl(r), call("slice.Map", V(f), xa)
         if o == "rec":
             if rng.random() < 0.5:
-                a, ta = E(INT)
-                b, tb = E(STR)
+                a, ta, xa = E(INT)
+                b, tb, xb = E(STR)
                 self.eq(ta, INT)
                 self.eq(tb, STR)
-                return "{A=%s; B=%s}" % (a, b), ["named", "IR1", []]
-            a, ta = E(STR)
-            b, tb = self.expr(0)
+                return "{A=%s; B=%s}" % (a, b), ["named", "IR1", []], call("{IR1}", xa, xb)
+            a, ta, xa = E(STR)
+            b, tb, xb = self.expr(0)
             self.eq(ta, STR)
             self.eq(tb, sl(INT))
-            return "{Name=%s; Vals=%s}" % (a, b), ["named", "IR2", []]
+            return "{Name=%s; Vals=%s}" % (a, b), ["named", "IR2", []], call("{IR2}", xa, xb)
         if o == "ctor":
             k = rng.choice([1, 2, 3])
             if k == 1:
-                a, ta = E(INT)
+                a, ta, xa = E(INT)
                 self.eq(ta, INT)
-                return "IC1 %s" % self.atom(a), ["named", "IU", []]
+                return "IC1 %s" % self.atom(a), ["named", "IU", []], call("IC1", xa)
             if k == 2:
-                a, ta = self.expr(0)
+                a, ta, xa = self.expr(0)
                 self.eq(ta, tup(INT, STR))
-                return "IC2 %s" % self.atom(a), ["named", "IU", []]
-            return "IC3", ["named", "IU", []]
+                return "IC2 %s" % self.atom(a), ["named", "IU", []], call("IC2", xa)
+            return "IC3", ["named", "IU", []], call("IC3")
         if o == "ipair":
-            a, ta = E()
-            b, tb = E()
-            return "ipair %s %s" % (self.atom(a), self.atom(b)), tup(ta, tb)        # a fresh instance per use
+            a, ta, xa = E()
+            b, tb, xb = E()
+            return "ipair %s %s" % (self.atom(a), self.atom(b)), tup(ta, tb), call("ipair", xa, xb)        # a fresh instance per use
         if o == "iid":
-            a, ta = E()
-            return "iid %s" % self.atom(a), ta
+            a, ta, xa = E()
+            return "iid %s" % self.atom(a), ta, call("iid", xa)
         if o == "iswap":
-            a, ta = E()
+            a, ta, xa = E()
             f1, f2 = self.fresh(), self.fresh()
             self.eq(ta, tup(f1, f2))
-            return "iswap %s" % self.atom(a), tup(f2, f1)
+            return "iswap %s" % self.atom(a), tup(f2, f1), call("iswap", xa)
         if o == "iconst":
-            a, ta = E(INT)
-            b, tb = E()
+            a, ta, xa = E(INT)
+            b, tb, xb = E()
             self.eq(ta, INT)
-            return "iconst %s %s" % (self.atom(a), self.atom(b)), INT
+            return "iconst %s %s" % (self.atom(a), self.atom(b)), INT, call("iconst", xa, xb)
+        if o in ("gbox", "gsome", "iwrap"):
+            return self.generic_value(d - 1, ("IOpt" if o == "gsome" else "IBox", None))
+        if o in ("iunbox", "ioptlen"):
+            # a generic user type meets a concrete instance of it: the type argument is determined through the user type
+            kind, base, f = ("IBox", INT, "iunbox") if o == "iunbox" else ("IOpt", STR, "ioptlen")
+            if rng.random() < 0.6:
+                a, ta, xa = self.generic_value(d - 1, (kind, base))
+            else:
+                x = self.var()
+                if x is None:
+                    return self.expr(0, want)
+                a, ta, xa = x, self.env[x], V(x)
+            self.eq(ta, ["named", kind, [base]])
+            return "%s %s" % (f, self.atom(a)), INT, call(f, xa)
         return self.expr(0, want)
 
     def build(self):
@@ -270,9 +325,11 @@ class Fn:
                 g = self.fresh("g")[1]
                 y = self.fresh("y")[1]
                 ty = self.fresh()
-                body, tb = rng.choice([("[%s]" % y, sl(ty)), ("(%s, 1)" % y, tup(ty, INT)), (y, ty), ("(%s, %s)" % (y, y), tup(ty, ty))])
+                body, tb, xb = rng.choice([("[%s]" % y, sl(ty), ["slice", [V(y)]]), ("(%s, 1)" % y, tup(ty, INT), ["tuple", [V(y), LIT["int"]]]),
+                                           (y, ty, V(y)), ("(%s, %s)" % (y, y), tup(ty, ty), ["tuple", [V(y), V(y)]])])
                 lines.append("let %s = fun %s -> %s" % (g, y, body))
-                self.funlocals.append((g, fn([ty], tb)))
+                self.stmts.append(["let", g, ["lam", y, xb]])
+                self.funlocals.append((g, fn([ty], tb), V(g)))
             elif r < 0.4:
                 # destructuring of a variable: it is a pair
                 x = self.var()
@@ -282,30 +339,26 @@ class Fn:
                 fa, fb = self.fresh(), self.fresh()
                 self.eq(self.env[x], tup(fa, fb))
                 lines.append("let (%s, %s) = %s" % (a, b, x))
+                self.stmts.append(["destr", [a, b], V(x)])
                 self.env[a], self.env[b] = fa, fb
                 self.unused += [a, b]
             else:
                 v = self.fresh("v")[1]
-                e, te = self.expr(2)
+                e, te, xe = self.expr(2)
                 lines.append("let %s = %s" % (v, e))
+                self.stmts.append(["let", v, xe])
                 self.env[v] = te
                 self.unused.append(v)
         # the result mentions every local that is still unused (Go rejects unused locals); unused parameters stay generic
         parts = []
-        e, te = self.expr(2)
-        parts.append((e, te))
+        parts.append(self.expr(2))
         for x in list(self.unused):
             if x not in self.params and x not in self.funparams:
-                parts.append((x, self.env[x]))
+                parts.append((x, self.env[x], V(x)))
                 self.unused.remove(x)
-        for f in list(self.funparams):
-            if f not in self.applied:
-                # an unapplied function-typed parameter is just an unconstrained value
-                pass
         parts += self.funlocals
-        # construction of generic user types, only as direct components of the result (their type arguments are never unified with
-        # another generic type: that corner is the candidate finding 13 of DESIGN section 6); two literals of the same generic record
-        # with different arguments must get independent instances
+        # construction of generic user types as direct components of the result: two literals of the same generic record with
+        # different arguments must get independent instances
         for _ in range(rng.choice([0, 0, 1, 2, 2])):
             x = self.var() or rng.choice(self.params)
             if x in self.funparams:
@@ -313,20 +366,24 @@ class Fn:
             if x in self.unused:
                 self.unused.remove(x)
             if rng.random() < 0.5:
-                parts.append(('{Val=%s; Tag="t"}' % x, ["named", "IBox", [self.env[x]]]))
+                parts.append(('{Val=%s; Tag="t"}' % x, ["named", "IBox", [self.env[x]]], call("{IBox}", V(x), LIT["str"])))
             else:
-                parts.append(("ISome %s" % x, ["named", "IOpt", [self.env[x]]]))
+                parts.append(("ISome %s" % x, ["named", "IOpt", [self.env[x]]], call("ISome", V(x))))
         rng.shuffle(parts)            # the order in the result is independent of the order of the local definitions
         while len(parts) > 1:
-            (a, ta), (b, tb) = parts.pop(), parts.pop()
-            parts.append(("(%s, %s)" % (b, a), tup(tb, ta)))
-        fin, tfin = parts[0]
+            (a, ta, xa), (b, tb, xb) = parts.pop(), parts.pop()
+            parts.append(("(%s, %s)" % (b, a), tup(tb, ta), ["tuple", [xb, xa]]))
+        fin, tfin, xfin = parts[0]
         self.body = lines + [fin]
         self.res = tfin
+        self.fin = xfin
         return self
 
     def spec(self):
-        return {"name": self.name, "eqs": self.eqs, "params": self.ptypes, "res": self.res}
+        """ast: the function as abstract syntax (spec/FoInferGen.tla generates the constraints from it); eqs/params/res: the constraint
+        problem as this generator derived it (double entry: TLC checks that both give the same principal type)"""
+        return {"name": self.name, "eqs": self.eqs, "params": self.ptypes, "res": self.res,
+                "ast": {"name": self.name, "params": self.params, "stmts": self.stmts, "fin": self.fin}}
 
     def text(self, annots=None):
         """annots: dict param -> Folang type text (annotated parameters)"""
@@ -349,29 +406,39 @@ class MergeFn(Fn):
             self.env[p] = t
             self.ptypes.append(t)
         lines, parts = [], []
+        generic = rng.random() < 0.3             # the classes are merged through values of a generic user type
         for _ in range(rng.randint(2, n + 1)):
             x, y = rng.sample(self.params, 2)
             v = self.fresh("v")[1]
             self.eq(self.env[x], self.env[y])
-            lines.append("let %s = [%s; %s]" % (v, x, y))
-            parts.append((v, sl(self.env[x])))
+            if generic:
+                lines.append("let %s = [ISome %s; ISome %s]" % (v, x, y))
+                self.stmts.append(["let", v, ["slice", [call("ISome", V(x)), call("ISome", V(y))]]])
+                parts.append((v, sl(["named", "IOpt", [self.env[x]]]), V(v)))
+            else:
+                lines.append("let %s = [%s; %s]" % (v, x, y))
+                self.stmts.append(["let", v, ["slice", [V(x), V(y)]]])
+                parts.append((v, sl(self.env[x]), V(v)))
         for _ in range(rng.randint(0, 2)):
             x = rng.choice(self.params)
             v = self.fresh("v")[1]
             if rng.random() < 0.5:
                 self.eq(self.env[x], INT)
                 lines.append("let %s = %s + 1" % (v, x))
-                parts.append((v, INT))
+                self.stmts.append(["let", v, call("int+", V(x), LIT["int"])])
+                parts.append((v, INT, V(v)))
             else:
                 self.eq(self.env[x], STR)
                 lines.append("let %s = strings.Length %s" % (v, x))
-                parts.append((v, INT))
+                self.stmts.append(["let", v, call("strings.Length", V(x))])
+                parts.append((v, INT, V(v)))
         rng.shuffle(parts)
         while len(parts) > 1:
-            (a, ta), (b, tb) = parts.pop(), parts.pop()
-            parts.append(("(%s, %s)" % (b, a), tup(tb, ta)))
+            (a, ta, xa), (b, tb, xb) = parts.pop(), parts.pop()
+            parts.append(("(%s, %s)" % (b, a), tup(tb, ta), ["tuple", [xb, xa]]))
         self.body = lines + [parts[0][0]]
         self.res = parts[0][1]
+        self.fin = parts[0][2]
         return self
 
 
